@@ -26,6 +26,9 @@ type Scenario struct {
 	// execution (non-vacuity / "a schedule with both occupied is found").
 	MustSee string
 	QuickShards, ThorShards int
+	// Isolate: the scenario touches process-global state that a violating
+	// execution can corrupt for good; the worker stops at its first violation.
+	Isolate                 bool
 	FreeQuick, FreeThor     int // free-choice bound per tier (0 = default 3; use -1 for "0")
 	// New returns the body and the oracle for one execution.
 	Make func() (body func(), check func(e *vsched.Exec) (string, *vsched.Violation))
@@ -157,6 +160,9 @@ func main() {
 	x := &vsched.Explorer{Name: sc.Name, Bound: *bound, FreeBound: *fbound, Body: wrapBody, Check: wrapCheck,
 		Shard: *shard, NShards: *nshards, MaxExecs: *maxExecs}
 	x.Cfg.PointAtRelease = *release
+	if sc.Isolate {
+		x.MaxViol = 1
+	}
 	start := time.Now()
 	if *budget > 0 {
 		x.Deadline = start.Add(time.Duration(*budget * float64(time.Second)))
